@@ -202,32 +202,38 @@ def monitor(sc, n_acked, dump):
         if d not in per:
             continue
         lat = per[d]["latest"]
-        empty_newest = bool(rs) and not rs[0].acked          # newest run has no acknowledged status (Open/first write in progress)
-        cls3 = "empty-newest-file" if (empty_newest and pt in ("open", "write")) else ("compaction-twin" if pt == "close" else "other")
+        # P3: no error, and never older than the acknowledged data of the newest run that has some (or a newer run)
         if lat["c"] == 2:
-            fails.append(("P3", "latest of %s answers an error" % d, cls3))
+            fails.append(("P3", "latest of %s answers an error" % d, "other"))
         elif with_data:
             top = with_data[0]
             cands = [r for r in rs if r.stamp >= top.stamp]
             if not (lat["c"] == 0 and any(r.req == lat.get("r") and ok_status(r, lat) for r in cands)):
-                fails.append(("P3", "latest of %s = %s hides acknowledged data of run %s" % (d, lat, top.req), cls3))
+                fails.append(("P3", "latest of %s = %s hides acknowledged data of run %s" % (d, lat, top.req), "other"))
         for key, n in (("rec1", 1), ("rec2", 2), ("rec5", 5)):
             got = per[d][key]
             reqs = [a.get("r") for a in got]
-            cls4 = "compaction-twin" if pt == "close" else ("empty-newest-file" if (empty_newest and pt in ("open", "write")) else "other")
-            if len(set(reqs)) != len(reqs):
-                fails.append(("P4", "recent %d of %s lists a run twice: %s" % (n, d, reqs), cls4))
-                continue
+            dups = sorted(set(q for q in reqs if reqs.count(q) > 1))
+            if dups:
+                # F7b (known): exactly the run being closed is listed twice - twin complete, original not yet unlinked.
+                # Anything else listed twice, or twice outside a Close, is a different failure.
+                narrow = pt == "close" and cur is not None and dups == [cur.req] and reqs.count(cur.req) == 2
+                fails.append(("P4", "recent %d of %s lists a run twice: %s" % (n, d, reqs), "compaction-twin-listed-twice" if narrow else "other"))
+                if narrow:
+                    continue      # the slot taken by the duplicate is the known consequence; every other answer is still checked
             st = [next((r.stamp for r in rs if r.req == q), "") for q in reqs]
             if st != sorted(st, reverse=True):
-                fails.append(("P4", "recent %d of %s is not newest first: %s" % (n, d, reqs), cls4))
-            # every run with acknowledged data among the n newest runs must be present (the run whose Open is in progress may or may not count)
-            for variant in ([r for r in rs if not r.maybe], rs):
+                fails.append(("P4", "recent %d of %s is not newest first: %s" % (n, d, reqs), "other"))
+            if any(a.get("r") not in [r.req for r in rs] for a in got):
+                fails.append(("P4", "recent %d of %s lists an unknown run: %s" % (n, d, reqs), "other"))
+            # every run with acknowledged data among the n newest listed runs must be present with a status no older than acknowledged
+            # (a run whose only data is still pending may or may not be listed yet)
+            for variant in ([r for r in rs if r.acked], [r for r in rs if r.acked or r.pending]):
                 need = [r for r in variant[:n] if r.acked]
                 if all(any(a.get("r") == r.req and ok_status(r, a) for a in got) for r in need):
                     break
             else:
-                fails.append(("P4", "recent %d of %s = %s hides a run with acknowledged data" % (n, d, reqs), cls4))
+                fails.append(("P4", "recent %d of %s = %s hides a run with acknowledged data" % (n, d, reqs), "other"))
     return fails
 
 
@@ -486,6 +492,46 @@ def byte_prefixes(ctx, tool, sc, idx, step=1):
     return obs
 
 
+def compaction_prefixes(ctx, tool, sc, idx, step=1):
+    """the compaction window of Close byte by byte: the directory before the Close plus <run>_c.dat holding the first j bytes of the
+    compacted line, j = 0 .. its length (j = length: the twin is complete and the original not yet unlinked).
+    The victim's last op must be the close."""
+    base = os.path.join(ctx.scratch, "c07c-%d" % idx)
+    os.makedirs(base, exist_ok=True)
+    n = len(sc["victim"]) - 1
+    pre_sc = dict(sc)
+    pre_sc["victim"] = sc["victim"][:n]
+    scf, scf_pre = os.path.join(base, "sc.json"), os.path.join(base, "sc-pre.json")
+    json.dump(sc, open(scf, "w"))
+    json.dump(pre_sc, open(scf_pre, "w"))
+    pre, post, work = os.path.join(base, "pre"), os.path.join(base, "post"), os.path.join(base, "d")
+    for d, f in ((pre, scf_pre), (post, scf)):
+        os.makedirs(d)
+        sh([tool, "run", d, f, "prior"])
+        sh([tool, "run", d, f, "victim"])
+    twin = None
+    for root, _, files in os.walk(post):
+        for fn in files:
+            p2 = os.path.join(root, fn)
+            if fn.endswith("_c.dat") and not os.path.exists(os.path.join(pre, os.path.relpath(p2, post))):
+                twin = os.path.relpath(p2, post)
+    if twin is None:
+        return []
+    data = open(os.path.join(post, twin), "rb").read()
+    js = sorted(set(list(range(0, len(data), step)) + [0, 1, len(data) - 2, len(data) - 1, len(data)]))
+    obs = []
+    for j in js:
+        if j < 0:
+            continue
+        restore(pre, work)
+        with open(os.path.join(work, twin), "wb") as f:
+            f.write(data[:j])
+        rc, dout, err = sh([tool, "dump", work, scf])
+        obs.append({"sc": sc, "kill": ["compaction-bytes", j], "n_acked": n, "dump": json.loads(dout), "loc": work,
+                    "sysc": "twin holds %d of %d bytes, original not unlinked" % (j, len(data))})
+    return obs
+
+
 def check_after(o):
     """F7c: an update acknowledged after the crash must be what find returns"""
     sc = o["sc"]
@@ -537,6 +583,7 @@ def evaluate(ctx, observations, tag):
 
 
 def run(ctx, replay_cases=None):
+    HL.authoritative_known(ctx)
     ctx.proofs(extra=["Hist/Check.vo", "Hist/CheckCrash.vo"])
     tool, out, _ = vlib.go_build("crash", ctx.scratch)
     if tool is None:
@@ -584,6 +631,16 @@ def run(ctx, replay_cases=None):
         for i, (sc, st) in enumerate(((w, step), (u, step), (b, step * 19 if ctx.tier == "quick" else 4))):
             o = byte_prefixes(ctx, tool, sc, i, st)
             ctx.cov["kill_points"][sc["name"]] = {"byte_prefixes": len(o)}
+            tb += o
+        # the compaction window of Close, byte by byte (twin empty / torn / complete, original still there)
+        c1 = {"name": "compaction-window", "names": [A], "reqs": [R1[1], R2[1]], "prior": run_ops(A, *R1, [1]),
+              "victim": [op("open", d=A, stamp=R2[0], req=R2[1]), op("write", tag=2), op("write", tag=3), op("close")], "after": []}
+        c2 = {"name": "compaction-window-3runs", "names": [A, B], "reqs": [R1[1], R2[1], R3[1], R4[1]],
+              "prior": run_ops(A, *R1, [1]) + run_ops(A, *R2, [2]) + run_ops(B, *R4, [9]),
+              "victim": [op("open", d=A, stamp=R3[0], req=R3[1]), op("write", tag=3, big=(ctx.tier != "quick")), op("close")], "after": []}
+        for i, sc in enumerate((c1, c2)):
+            o = compaction_prefixes(ctx, tool, sc, i, 29 if ctx.tier == "quick" else (1 if i == 0 else 7))
+            ctx.cov["kill_points"][sc["name"]] = {"compaction_byte_prefixes": len(o)}
             tb += o
         evaluate(ctx, tb, "b")
     st = ctx.cov.pop("_states")
